@@ -350,7 +350,13 @@ class Node:
                             n._data = new_data
                 else:
                     # Move this one node to another slot in the map
-                    node_map[self._data_id].remove(self)
+                    # NOTE: `list.remove()` checks for equality ('=='), not
+                    # identity, and would remove the first clone
+                    clones = node_map[self._data_id]
+                    for i, n in enumerate(clones):
+                        if n is self:
+                            clones.pop(i)
+                            break
                     try:  # are we adding to existing clones again?
                         node_map[new_data_id].append(self)
                     except KeyError:  # now a singleton with a new data_id
